@@ -514,7 +514,11 @@ func NetspocRule(chain string, r Rule, rng *rand.Rand) string {
 		// A match option that only repeats the protocol is redundant
 		// and allowed.
 		if (p == "ipv6-icmp" || strings.EqualFold(p, "tcp") || strings.EqualFold(p, "udp")) && pick(3) == 0 {
-			w = append(w, "-m", p)
+			m := p
+			if pick(2) == 0 {
+				m = strings.ToLower(p)
+			}
+			w = append(w, "-m", m)
 		}
 	}
 	ports := func(opt, p string) {
